@@ -93,6 +93,8 @@ impl History {
 }
 
 pub fn history_json(h: &[Ev], max: usize) -> serde_json::Value {
+    // VERIF_HISTORY_MAX=N shows more of the history when inspecting a replay
+    let max = std::env::var("VERIF_HISTORY_MAX").ok().and_then(|s| s.parse().ok()).unwrap_or(max);
     let mut v: Vec<serde_json::Value> = h
         .iter()
         .take(max)
@@ -231,6 +233,8 @@ pub struct StreamCtl {
     pub stream_no: u32,
     pub hist: History,
     pub gate: Arc<Gate>,
+    /// `next` calls begun
+    pub nexts_started: AtomicU64,
     /// completed `next` calls (any result)
     pub nexts_done: AtomicU64,
     /// completed `next` calls that carried a queue entry (not the in-band report, which does not
@@ -273,6 +277,7 @@ impl RecStream {
             stream_no,
             hist,
             gate: Gate::new(gate_initial),
+            nexts_started: AtomicU64::new(0),
             nexts_done: AtomicU64::new(0),
             entry_nexts_done: AtomicU64::new(0),
             next_key: detsim::fresh_key(),
@@ -336,6 +341,7 @@ impl EntryIoStream for RecStream {
             self.next_calls += 1;
         }
         self.ctl.hist.log(K::NextBegin { stream: no, id: seen.id, report: seen.report });
+        self.ctl.nexts_started.fetch_add(1, Ordering::SeqCst);
         if self.yields {
             detsim::yield_point();
             self.ctl.gate.pass();
